@@ -155,6 +155,9 @@ class Ctx:
                     if e["call"] == "write_basis" and e.get("rval") == 0:
                         out.append(dict(call="basis_file", h=e["h"], b=e["b"], file=e["file"], lines=pipeline.read_basis_file(os.path.join(self.dir, e["file"]))))
                 evs = out
+            # the token stream of every LP-format file the library wrote becomes an event (binding of spec/LPWrite.tla to the writer)
+            if any(e["call"] == "write_prob" for e in evs):
+                evs = pipeline.add_lp_text(evs, self.dir)
             pipeline.renumber(evs)
             summ, verdicts = pipeline.validate(evs, self.dir, ctag, spec=spec, heap="3g")
             return part, evs, info, summ, verdicts
